@@ -1,5 +1,6 @@
 """C10 — personal-message digest (EIP-191)."""
 from vlib.core import Case, hx
+from vlib import core
 
 ID = "C10"
 NEEDS_CLI = True
@@ -50,9 +51,12 @@ def gen(rng, tier):
     for body in (bytes(rng.getrandbits(8) for _ in range(7)), b"hello world!"):
         for d, tag in magic.variants(rng, body):
             cases.append(Case("msg.hash " + hx(d), tags=("lib", tag)))
-            cases.append(Case("cli.hash_message " + hx(d), tags=("cli", tag), runner="cli", meta={"via_file": rng.random() < 0.5}))
+            cases.append(Case("cli.hash_message " + hx(d), tags=("cli", tag), runner="cli", meta={"via_file": core.input_route(rng)}))
+    for n in (2, 100, 4096, 8192, 8193, 70000):
+        for route in ("slow", "fifo"):
+            cases.append(Case("cli.hash_message " + hx(bytes(rng.getrandbits(8) for _ in range(n))), tags=("cli", "pieces:" + route), runner="cli", meta={"via_file": route}))
     for n in (0, 1, 12, 300):
-        cases.append(Case("cli.hash_message " + hx(bytes(rng.getrandbits(8) for _ in range(n))), tags=("cli",), runner="cli", meta={"via_file": rng.random() < 0.5}))
+        cases.append(Case("cli.hash_message " + hx(bytes(rng.getrandbits(8) for _ in range(n))), tags=("cli",), runner="cli", meta={"via_file": core.input_route(rng)}))
     return cases
 
 
